@@ -322,6 +322,13 @@ func (ck *checker) report(p *pcase, in inst, what string, detail vh.M) {
 		ck.blamed[p.c.Hist[0].Op+"|"+in.Type+"|"+in.Mode+"|"+failClass(what)] = true
 		ck.bmu.Unlock()
 	}
+	// a re-activation cannot be a program of its own (it needs a result to re-declare):
+	// it is blamed when a two-call program ending in it fails and the first call is innocent
+	if len(p.c.Hist) == 2 && p.c.Hist[1].Op == "Activate" && op == "Activate" {
+		ck.bmu.Lock()
+		ck.blamed["Activate|"+in.Type+"|"+in.Mode+"|"+failClass(what)] = true
+		ck.bmu.Unlock()
+	}
 	key := fmt.Sprint(op, what, in.Type, in.Mode)
 	ck.st.mu.Lock()
 	ck.st.Mismatches++
@@ -624,11 +631,13 @@ func replayMain(args []string) {
 	ck := &checker{out: out, st: st, blamed: map[string]bool{}}
 	// phase 1: single-call programs (they decide which operation a failure of a
 	// longer program is attributed to); phase 2: everything else
-	var shallow, deep [][]byte
+	var shallow, middle, deep [][]byte
 	err := vh.EachLine(args[0], func(line []byte) error {
 		cp := append([]byte{}, line...)
 		if bytes.Contains(cp, []byte(`"d":1,`)) {
 			shallow = append(shallow, cp)
+		} else if bytes.Contains(cp, []byte(`"d":2,`)) {
+			middle = append(middle, cp)
 		} else {
 			deep = append(deep, cp)
 		}
@@ -696,6 +705,7 @@ func replayMain(args []string) {
 		wg.Wait()
 	}
 	phase(shallow)
+	phase(middle)
 	phase(deep)
 	blamed := []string{}
 	for k := range ck.blamed {
